@@ -535,9 +535,18 @@ func (db *RockDB) HClear(ts int64, hkey []byte) (int64, error) {
 		defer tableIndexes.Unlock()
 	}
 
-	hlen, err := db.HLen(hkey)
+	// the expire should be checked by the timestamp of the raft log (not the local clock)
+	// since it must be the same on all replicas and on replay.
+	oldh, expired, err := db.hHeaderMeta(ts, hkey, false)
 	if err != nil {
 		return 0, err
+	}
+	hlen := int64(0)
+	if !expired {
+		hlen, err = Int64(oldh.UserData, err)
+		if err != nil {
+			return 0, err
+		}
 	}
 	if hlen == 0 {
 		return 0, nil
